@@ -437,6 +437,7 @@ def _main(modname, argv=None):
         "workers": args.workers,
     }
     cov.update(fin.get("coverage", {}))
+    cov["tree_under_test"] = _tree_id()
     ev = {
         "property_id": prop, "tier": tier, "seed": seed, "level": mod.LEVEL, "coverage": cov,
         "assumptions": list(getattr(mod, "ASSUMPTIONS", [])),
@@ -449,6 +450,21 @@ def _main(modname, argv=None):
     if inconclusive:
         return 2
     return 0
+
+
+def _tree_id():
+    """which working tree the run looked at: commit of the repository under test (+dirty) and of the checks"""
+    import subprocess
+    out = {}
+    for name, path in (("repo", env.REPO), ("verif", env.VERIF)):
+        try:
+            h = subprocess.run(["git", "-C", path, "log", "-1", "--format=%h"], stdout=subprocess.PIPE, stderr=subprocess.DEVNULL, timeout=20).stdout.decode().strip()
+            dirty = subprocess.run(["git", "-C", path, "status", "--porcelain", "--untracked-files=no"], stdout=subprocess.PIPE, stderr=subprocess.DEVNULL,
+                                   timeout=20).stdout.decode().strip()
+            out[name] = (h or "no-git") + ("+modified" if dirty else "")
+        except Exception:
+            out[name] = "unknown"
+    return out
 
 
 def write_evidence(prop, ev):
@@ -470,3 +486,10 @@ def write_evidence(prop, ev):
     with open(tmp, "w") as f:
         json.dump(ev, f, indent=1, default=_jsonable, sort_keys=True)
     os.replace(tmp, path)
+    if ev.get("tier") == "thorough":
+        # the last thorough run is kept beside the file that every run rewrites (a later quick run would otherwise be all that is left of it)
+        d2 = os.path.join(d, "thorough")
+        os.makedirs(d2, exist_ok=True)
+        with open(os.path.join(d2, prop + ".json.tmp"), "w") as f:
+            json.dump(ev, f, indent=1, default=_jsonable, sort_keys=True)
+        os.replace(os.path.join(d2, prop + ".json.tmp"), os.path.join(d2, prop + ".json"))
